@@ -4,7 +4,7 @@
    Python list operations; an object is addressed by the list that contains it, never by a stored
    pointer.  [kid_ids s a] is the child-id list of object a in the model state s. *)
 From PsdV Require Import Base.Prelude Edit.Model Edit.Spec Edit.Corr Edit.Inv Edit.Forest Edit.ProofsInv
-  Edit.ProofsTree Edit.ProofsKids Edit.ProofsRefine Edit.Persist.
+  Edit.ProofsTree Edit.ProofsKids Edit.ProofsRefine Edit.Persist Edit.ProofsPersist.
 Open Scope Z_scope.
 
 (* ---------------------------------------------------------------- the tree is the result of the list operations *)
@@ -56,6 +56,18 @@ Theorem reopen_after_save : forall lrfix isg f l,
   wk_l isg l -> (lrfix = true \/ lr16 f = None) -> reopen (save lrfix isg f l) = Some l.
 Proof. exact Persist.reopen_after_save. Qed.
 Print Assumptions reopen_after_save.
+
+(* End to end, for every guarded history of any length from any state satisfying the invariant and every
+   document d: history; save; open gives back the tree the history left below d -- the same objects (a
+   record carries its identity: name, kind, visibility, clipping flag, opacity, rectangle and pixel planes
+   are fields of the record, which travels unchanged), the same nesting, the same order; and by
+   history_refines its child lists are those of the plain lists.  (lrfix = the writer updates the layer list
+   the reader uses: /repo since de76dec; before it only for files without a Lr16/Lr32 block.) *)
+Theorem history_save_reopen : forall h s f d lrfix,
+  Inv s -> quiet s -> guards s h -> (lrfix = true \/ lr16 f = None) -> 0 <= d < next (run s h) ->
+  reopen (save lrfix (isgroup (run s h)) f (kids_of (run s h) d)) = Some (kids_of (run s h) d).
+Proof. intros h s f d lrfix HI Q. apply ProofsPersist.history_save_reopen. split; assumption. Qed.
+Print Assumptions history_save_reopen.
 
 Example reopen_example :
   reopen (save true (fun j => j <? 10) (mkFile [] (Some [RLeaf 77])) [T 1 [T 20 []; T 2 [T 21 []]]; T 22 []])
